@@ -68,6 +68,20 @@ func buildTable(specs []RouteSpec, urlOf func(int) string) (route.Table, error) 
 	return route.NewTable(&b)
 }
 
+// listenLoopback opens a listener on a free loopback port. When several checks run at once the machine can
+// run out of ephemeral ports for a while (TIME_WAIT); wait for up to a minute rather than fail the run.
+func listenLoopback() (net.Listener, error) {
+	var l net.Listener
+	var err error
+	for i := 0; i < 300; i++ {
+		if l, err = net.Listen("tcp", "127.0.0.1:0"); err == nil {
+			return l, nil
+		}
+		time.Sleep(200 * time.Millisecond)
+	}
+	return nil, err
+}
+
 // deadPort returns a loopback port with nothing listening (reserved once per process by binding and closing).
 var (
 	deadOnce  sync.Once
@@ -76,12 +90,17 @@ var (
 
 func deadPort(i int) int {
 	deadOnce.Do(func() {
+		// hold all listeners until every port is known, otherwise the kernel may hand out the same port twice
+		var ls []net.Listener
 		for j := 0; j < 4; j++ {
-			l, err := net.Listen("tcp", "127.0.0.1:0")
+			l, err := listenLoopback()
 			if err != nil {
 				panic(err)
 			}
 			deadPorts = append(deadPorts, l.Addr().(*net.TCPAddr).Port)
+			ls = append(ls, l)
+		}
+		for _, l := range ls {
 			l.Close()
 		}
 	})
